@@ -307,6 +307,7 @@ def _var_worker(idxs):
                                   {"kind": "decode", "def": p.id, "payload": hex(pl), "expect": "no-raise"})
                     continue
                 if pa.kind != "return":
+                    rep.inconc("%s: path ended with %s" % (p.id, pa.kind))
                     continue
                 mode, m, calls, logged_def = pa.value
                 H.logged_deferred = logged_def[0]
@@ -954,6 +955,91 @@ def kernel_checks(rep, H, tier):
                 rep.violation({"kind": "int-to-bytes-kernel"}, "int_to_bytes does not preserve the value", {"kind": "itb", "value": m.eval(xv, True).as_long()})
 
 
+    datetime_kernel_checks(rep, H, tier)
+
+
+def datetime_kernel_checks(rep, H, tier):
+    """decode_time / decode_date on every integer and every binary64 argument: the definition level only ties a TIME /
+    DATE value to `kernel(decode_number(...))`; here the kernel itself is compared with its specification
+    (hour:minute:second of floor(seconds) inside a day; 1970-01-01 + floor(days))."""
+    from .envmodels import SymDate, SymTime, EPOCH_ORD
+    import datetime as _dtm
+    real = H.real
+    for fname in ("decode_time", "decode_date"):
+        for kind in ("int", "float"):
+            if kind == "int":
+                xv = z3.BitVec("n_" + fname, 34)
+                arg = SymInt(xv)
+                n_term = xv
+                base = []
+            else:
+                # the float arguments that occur: raw * resolution for the database's fractional resolutions of this field type
+                sigs_ = sorted({(f.len, float(f.res)) for p_ in db().pgns for f in p_.fields
+                                if f.type == ("TIME" if fname == "decode_time" else "DATE") and f.fixed and f.res is not None and f.res != 1})
+                if not sigs_:
+                    continue
+                ln, res_ = sigs_[0]
+                xv = z3.BitVec("x_" + fname, ln)
+                arg = SymInt(z3.ZeroExt(1, xv), ln) * res_
+                n_term = z3.fpToSBV(z3.RTZ(), arg.t, z3.BitVecSort(34))
+                base = []
+            lo, hi = (0, 86399) if fname == "decode_time" else (0, 65535)
+            inside = [z3.BitVecVal(lo, 34) <= n_term, n_term <= z3.BitVecVal(hi, 34)]
+            try:
+                paths, ex = explore(lambda: real[fname](arg), max_paths=64, assumptions=base)
+            except Unsupported as e:
+                rep.inconc("%s(%s): %s" % (fname, kind, e))
+                continue
+            rep.count("datetime_kernel_paths", len(paths))
+            for pa in paths:
+                def wit(m):
+                    if m is None:
+                        return {"kind": "dtkernel", "fn": fname, "arg": 0}
+                    if kind == "int":
+                        v = m.eval(xv, True).as_signed_long()
+                    else:
+                        v = m.eval(xv, True).as_long() * res_
+                    return {"kind": "dtkernel", "fn": fname, "arg": v, "argkind": kind}
+                pc = [c for c in pa.pc] + base + inside
+                if pa.kind != "return":
+                    st, m = satisfiable(z3.And(*pc))
+                    if st == "sat":
+                        rep.violation({"kind": "datetime-kernel", "fn": fname}, "%s raises %r on an argument inside the field's domain" % (fname, pa.value), wit(m))
+                    elif st == "unknown":
+                        rep.inconc("%s(%s) raise path undecided" % (fname, kind))
+                    continue
+                v = pa.value
+                if fname == "decode_time":
+                    if isinstance(v, _dtm.time):
+                        h_, mi_, s_ = v.hour, v.minute, v.second
+                    elif isinstance(v, SymTime):
+                        h_, mi_, s_ = v.hour, v.minute, v.second
+                    else:
+                        st, m = satisfiable(z3.And(*pc))
+                        if st == "sat":
+                            rep.violation({"kind": "datetime-kernel", "fn": fname}, "%s returns %r" % (fname, type(v).__name__), wit(m))
+                        continue
+                    tot = SymInt.lift(h_) * 3600 + SymInt.lift(mi_) * 60 + SymInt.lift(s_)
+                    claim = z3.And(truth(tot == SymInt(n_term)), truth(SymInt.lift(s_) < 60), truth(SymInt.lift(mi_) < 60), truth(SymInt.lift(h_) < 24),
+                                   truth(SymInt.lift(s_) >= 0), truth(SymInt.lift(mi_) >= 0), truth(SymInt.lift(h_) >= 0))
+                else:
+                    if isinstance(v, _dtm.date):
+                        o_ = v.toordinal()
+                    elif isinstance(v, SymDate):
+                        o_ = v.ordinal
+                    else:
+                        st, m = satisfiable(z3.And(*pc))
+                        if st == "sat":
+                            rep.violation({"kind": "datetime-kernel", "fn": fname}, "%s returns %r" % (fname, type(v).__name__), wit(m))
+                        continue
+                    claim = truth(SymInt.lift(o_) == SymInt(n_term) + EPOCH_ORD)
+                st, m = prove(claim, pc, label="%s-kernel/%s" % (fname, kind), timeout_ms=120000)
+                if st == "sat":
+                    rep.violation({"kind": "datetime-kernel", "fn": fname}, "%s does not return the %s of its argument" % (fname, "time of day" if fname == "decode_time" else "date"), wit(m))
+                elif st == "unknown":
+                    rep.inconc("%s(%s) kernel undecided: %s" % (fname, kind, m))
+
+
 # ------------------------------------------------------------------ replay (plain code, exact arithmetic oracle)
 def replay(r):
     from fractions import Fraction
@@ -985,6 +1071,17 @@ def replay(r):
         exp = raw.rstrip(b"\x00").decode(enc, errors="ignore") if enc == "utf-8" else raw.decode(enc, errors="ignore")
         bad = text is None or (text.rstrip("\x00") != exp.rstrip("\x00")) or (skip is not None and skip != 8 * region[0])
         return bad, "decode_string_%s region %s -> %r skip %r, expected %r skip %r" % (r["fn"], region.hex(), text, skip, exp, 8 * region[0])
+    if k == "dtkernel":
+        import datetime as _dtm
+        import math
+        a = r["arg"]
+        n = math.floor(a) if a >= 0 else -math.floor(-a)
+        try:
+            got = getattr(N.utils, r["fn"])(a)
+        except Exception as e:
+            return True, "%s(%r) raised %r" % (r["fn"], a, e)
+        exp = (_dtm.datetime(2000, 1, 1) + _dtm.timedelta(seconds=n)).time() if r["fn"] == "decode_time" else _dtm.date(1970, 1, 1) + _dtm.timedelta(days=n)
+        return got != exp, "%s(%r) = %r, expected %r" % (r["fn"], a, got, exp)
     if k == "itb":
         b = N.message.int_to_bytes(r["value"])
         return int.from_bytes(b, "big") != r["value"], "bytes %r" % (b,)
